@@ -7,5 +7,5 @@
 import sys, json
 sys.path.insert(0, '/verif')
 from engine.pysym import env
-SPEC = json.loads('{"prop": "C03", "key": "py:StreamSerializer.write#1:write_byte_no_check:offset-out-of-range", "obligation": "store-in-bounds:write_byte_no_check<-StreamSerializer.write#1", "job": {"harness": "harness.py.kernels:h_c03", "params": {"case": "stream/generator", "N": 16, "maxlen": 3}, "limits": {"budget_s": 200, "max_paths": 40000}, "hooks": "harness.py.kernels:install_c03_hooks"}, "inputs": {"w.off": 16, "w.junk0": 0, "w.junk1": 0, "w.junk2": 0, "w.junk3": 0, "w.junk4": 0, "w.junk5": 0, "w.junk6": 0, "w.junk7": 0, "w.junk8": 0, "w.junk9": 0, "w.junk10": 0, "w.junk11": 0, "w.junk12": 0, "w.junk13": 0, "w.junk14": 0, "w.junk15": 0, "v.0": -2147483647, "v.len": 1}}')
+SPEC = json.loads('{"prop": "C03", "key": "py:StreamSerializer.write#1:write_byte_no_check:offset-out-of-range", "obligation": "store-in-bounds:write_byte_no_check<-StreamSerializer.write#1", "job": {"harness": "harness.py.kernels:h_c03", "params": {"case": "stream/generator", "N": 16, "maxlen": 2}, "limits": {"budget_s": 25, "max_paths": 4000}, "hooks": "harness.py.kernels:install_c03_hooks"}, "inputs": {"w.off": 16, "w.junk0": 0, "w.junk1": 0, "w.junk2": 0, "w.junk3": 0, "w.junk4": 0, "w.junk5": 0, "w.junk6": 0, "w.junk7": 0, "w.junk8": 0, "w.junk9": 0, "w.junk10": 0, "w.junk11": 0, "w.junk12": 0, "w.junk13": 0, "w.junk14": 0, "w.junk15": 0, "v.0": -2147483647, "v.len": 1}}')
 sys.exit(env.replay_main(SPEC))
